@@ -144,6 +144,21 @@ CHECKS = {
              "function (tanh) is not shown sign-consistent over the reals here, polar BP and the interleaved variants have oracles / executable "
              "models but no theorem; float32 underflow region excluded (A-float). Closed under the global context.",
         technique="Coq proof (induction on the recursion depth over lists; Kronecker recursion; counting lemma for the information set; kernel computation on the regenerated table) + model/implementation correspondence by vm_compute"),
+    "C07": dict(
+        text="Coq theorems over the reals for every draw list, power and SNR: the noise added by the Gaussian channels has second moment "
+             "P * (second moment of the draws) for real input and P/2 * (sum over both parts) for complex input, mean sqrt(P) * (mean of the draws); "
+             "same draws at two powers differ by sqrt(P2/P1); on the SNR path the library's own noise_power_to_snr of the added noise is the configured "
+             "dB value; dB/linear/noise-power conversions are mutually inverse with 0 dB = 1, 10 dB = 10, additivity and monotonicity; calculate_snr "
+             "equals noise_power_to_snr above its clamp and the metric differs by 10 log10(1 + eps/N) <= (10/ln 10) eps/N; Laplacian power for real "
+             "and complex input; supplied noise is added verbatim. The squared exact-rational model (noise^2 = draws^2 * P, x^(10 den) = 10^num for "
+             "num/den dB) is evaluated by the kernel on the implementation's float64 same-seed runs and on the dB grid; soundness of the checkers proved.",
+        design="6/C07",
+        note="Trusted: Coq kernel + vm_compute; hand-written models Chan/NoiseR.v (Reals) and Chan/NoiseQ.v (rationals) tied by kernel-evaluated "
+             "checkers on implementation output. Axioms (Coq standard library Reals): ClassicalDedekindReals.sig_not_dec, sig_forall_dec, "
+             "FunctionalExtensionality.functional_extensionality_dep; the rational theorems are closed. The law of torch.randn / torch.rand "
+             "(unit second moment, zero mean; E l(U)^2 = 2 for the Laplacian transform) is an assumption validated statistically on >= 2^22 "
+             "samples per case with 6.5-sigma bounds (per-test false-alarm 8e-11), on the implementation only.",
+        technique="Coq proof (Reals: algebra of sqrt/exp/ln; rationals: verified checkers) + kernel-evaluated correspondence on same-seed runs + statistical oracle for the sampler's second moment"),
     "C10": dict(
         text="Coq theorems over exact rationals: the Wagner decoder returns, for EVERY non-empty real input (ties included), an even-parity "
              "word of maximum correlation (ML for the single-parity-check code); flooding BP / min-sum on ANY parity-check matrix returns the "
